@@ -75,8 +75,38 @@ type Graph struct {
 	Nodes []*Node
 	byKey map[string]int
 
+	pristine []map[string]string // descriptor annotations as built, see Restore
+
 	varMu    sync.Mutex
 	varCache map[string]map[string]string // descriptor variants handed to Tag, see descVariant
+}
+
+// Restore gives every node's descriptor a fresh copy of the annotations it was built
+// with. The code under test is handed these descriptors; if it writes into their maps
+// the oracle must not inherit the damage. It returns the nodes whose maps had changed.
+func (g *Graph) Restore() (changed []int) {
+	for i, n := range g.Nodes {
+		want := g.pristine[i]
+		same := len(want) == len(n.Desc.Annotations)
+		for k, v := range want {
+			if n.Desc.Annotations[k] != v {
+				same = false
+			}
+		}
+		if !same {
+			changed = append(changed, i)
+		}
+		if want == nil {
+			n.Desc.Annotations = nil
+			continue
+		}
+		fresh := map[string]string{}
+		for k, v := range want {
+			fresh[k] = v
+		}
+		n.Desc.Annotations = fresh
+	}
+	return changed
 }
 
 func descKey(d ocispec.Descriptor) string {
@@ -107,8 +137,12 @@ func platformOf(s string) *ocispec.Platform {
 	if s == "" {
 		return nil
 	}
+	osv := ""
+	if i := strings.Index(s, "@"); i >= 0 {
+		s, osv = s[:i], s[i+1:] // os/arch[/variant]@os.version
+	}
 	parts := strings.SplitN(s, "/", 3)
-	p := &ocispec.Platform{OS: parts[0]}
+	p := &ocispec.Platform{OS: parts[0], OSVersion: osv}
 	if len(parts) > 1 {
 		p.Architecture = parts[1]
 	}
@@ -127,7 +161,13 @@ func (gs *GraphSpec) Build() *Graph {
 		if rich && gs.RichDesc && c.IsManif {
 			d.ArtifactType = c.Spec.AType
 			if len(c.Spec.Ann) > 0 {
-				d.Annotations = c.Spec.Ann
+				d.Annotations = map[string]string{}
+				for k, v := range c.Spec.Ann {
+					d.Annotations[k] = v
+				}
+				if c.Spec.Title != "" {
+					d.Annotations[ocispec.AnnotationTitle] = c.Spec.Title
+				}
 			}
 			d.Platform = platformOf(c.Spec.Platform)
 		}
@@ -211,10 +251,18 @@ func (gs *GraphSpec) Build() *Graph {
 		if ns.Kind == "blob" && ns.Alg == "sha512" {
 			n.Desc.Digest = digest.SHA512.FromBytes(n.Data)
 		}
-		if ns.Kind == "blob" && ns.Title != "" {
+		if ns.Title != "" {
 			n.Desc.Annotations = map[string]string{ocispec.AnnotationTitle: ns.Title}
 		}
 		g.Nodes = append(g.Nodes, n)
+		var keep map[string]string
+		if n.Desc.Annotations != nil {
+			keep = map[string]string{}
+			for k, v := range n.Desc.Annotations {
+				keep[k] = v
+			}
+		}
+		g.pristine = append(g.pristine, keep)
 		if _, dup := g.byKey[descKey(n.Desc)]; !dup {
 			g.byKey[descKey(n.Desc)] = i
 		}
@@ -301,6 +349,9 @@ type GraphOpts struct {
 	SHA512     bool // some blobs are addressed by sha512
 	Fanout     bool // with Referrers: many referrers share one subject (paged listings, merged index updates)
 	Wide       bool // indexes list many manifests (6-12): many sibling sub-graphs are open at once
+	// ManifestTitles (with Titles): some manifests carry a file name on their descriptor
+	// too, so a file store keeps them as named files
+	ManifestTitles bool
 }
 
 var aTypes = []string{"application/vnd.example.sbom", "application/vnd.example.sig", "application/vnd.test+type", ""}
@@ -444,6 +495,9 @@ func GenGraph(r *Rand, o GraphOpts) *GraphSpec {
 			if r.Chance(0.08) {
 				ns.Subject = pick(r, blobs) // subject may be any descriptor
 			}
+		}
+		if o.Titles && o.ManifestTitles && r.Chance(0.35) {
+			ns.Title = fmt.Sprintf("manifest%d.json", len(gs.Nodes))
 		}
 		// make manifest bytes unique per node so that digests differ
 		if ns.Ann == nil {
